@@ -31,7 +31,7 @@ def emptyObjectVal : Value := ⟨.object [] [] [], .smap [] []⟩
 def capsuleVal (id : Nat) : Value := ⟨.capsule id, .caps⟩
 
 /-- `val.Mark(m)`: a new marker around the real value, carrying the old marks and `m` -/
-def mark (v : Value) (m : String) : Value :=
+def mark1 (v : Value) (m : String) : Value :=
   match v.v with
   | .marked ms r => ⟨v.ty, .marked (insertMark m ms) r⟩
   | p => ⟨v.ty, .marked [m] p⟩
@@ -54,7 +54,7 @@ def pairsOk (e : Ty) (ps : List Payload) : Bool :=
 def setMember (w : Value) : Value := if w.marksDeep.length > 0 then w.unmarkDeep else w
 
 /-- `cty.SetVal(ws)`; `hs` = the implementation's hash of every (unmarked) member -/
-def setVal (ws : List Value) (hs : List Int) : Res Value :=
+def setValH (ws : List Value) (hs : List Int) : Res Value :=
   if ws.isEmpty then .panic "must not call SetVal with empty slice"
   else
     let us := ws.map setMember
